@@ -328,7 +328,7 @@ func c06DiffPreserved(c *Ctx) {
 						continue
 					}
 					uses = true
-					if !literalSetsCreated(x.Val) {
+					if !literalSetsCreated(x.Val, p) {
 						bad = c.P.Pos(x.Pos())
 					}
 				}
@@ -344,7 +344,7 @@ func c06DiffPreserved(c *Ctx) {
 }
 
 // literalSetsCreated: v is the value of a local composite literal whose Created field is set to the constant true.
-func literalSetsCreated(v ssa.Value) bool {
+func literalSetsCreated(v ssa.Value, recorded ssa.Value) bool {
 	ld, ok := v.(*ssa.UnOp)
 	if !ok || ld.Op != token.MUL {
 		return false
@@ -366,6 +366,12 @@ func literalSetsCreated(v ssa.Value) bool {
 			if s, ok := rr.(*ssa.Store); ok {
 				if k, ok := s.Val.(*ssa.Const); ok && k.Value != nil && k.Value.ExactString() == "true" {
 					return true
+				}
+				// or the flag the recorded diff already carries is copied over: Created: p.Created
+				if ld, ok := s.Val.(*ssa.UnOp); ok && ld.Op == token.MUL {
+					if src, ok := ld.X.(*ssa.FieldAddr); ok && src.X == recorded && src.Field == fa.Field {
+						return true
+					}
 				}
 			}
 		}
